@@ -730,6 +730,25 @@ class InterpCore(object):
             return len(v.items) > 0
         if isinstance(v, Cond):
             return self.assume(v)
+        if isinstance(v, InstV) and v.label is None:
+            # objects are true unless their class says otherwise: __bool__, else __len__ (own or inherited from a container base)
+            from .model import ExternalClass
+            b = v.ci.lookup("__bool__")
+            if b is not None:
+                return self.truth(self.call_function(FuncV(b, selfv=v), [], {}, None))
+            ext = [c for c in v.ci.mro() if isinstance(c, ExternalClass) and c.name.split(".")[-1] != "object"]
+            sized = v.ci.lookup("__len__") is not None or any(
+                c.name.split(".")[-1] in ("list", "dict", "OrderedDict", "tuple", "set", "frozenset", "UserDict", "UserList", "defaultdict",
+                                          "Mapping", "MutableMapping", "Sequence", "MutableSequence", "SectionProxy", "RawConfigParser",
+                                          "ConfigParser", "deque", "Counter")
+                for c in ext)
+            if sized:
+                n = self.x_len([v], {}, None, None)
+                c = n.const() if isinstance(n, Num) else None
+                if c is not None:
+                    return c != 0
+                return self.assume(Cond("truthy", n))
+            return True
         if isinstance(v, (FuncV, InstV, ClassV, ModV, ExtV, BufV)):
             return True
         if isinstance(v, StrV):
@@ -740,6 +759,12 @@ class InterpCore(object):
             raise AnalysisError("use of undefined value")
         if type(v).__name__ == "NTV":
             return len(v.values) > 0
+        if type(v).__name__ == "PyObjV" and hasattr(v.obj, "length"):
+            n = v.obj.length(self)                       # a sized library object is true when it is not empty
+            c = n.const() if isinstance(n, Num) else None
+            if c is not None:
+                return c != 0
+            return self.assume(Cond("truthy", n))
         if type(v).__name__ in ("PyObjV", "DerivV", "NTClassV", "LocalClassV", "LoggerV", "CmpKeyV"):
             return True
         if type(v).__name__ == "SortedV":
